@@ -463,6 +463,14 @@ static int pick(vthread_t* cur) {
   }
   if (ne && (int)rnd(100) < g_env_pct) return -1 - en[rnd((unsigned)ne)];
   if (g_policy == 1) {
+    static int run_len, last = -1, demote = -10;
+    if (cur && cur->idx == last) run_len++;
+    else run_len = 0;
+    last = cur ? cur->idx : -1;
+    if (cur && run_len > 3000) { /* fairness: a polling loop must not monopolise the schedule */
+      cur->prio = --demote;
+      run_len = 0;
+    }
     for (int d = 0; d < g_pct_d; d++)
       if (g_points == g_pct_pts[d] && cur) cur->prio = -(d + 1);
     int best = el[0];
